@@ -3,7 +3,7 @@
      (run (ctx ...) "teal")                      -> as the main binary: execute TEAL on the AVM model
      (encode T V)                                -> (some xHEX) | (none)            arc4_encode
      (member (T ...) J xHEX)                     -> (some xHEX) | (none)            member_bytes (wire types)
-     (sigstr "name" (T ...) RET)                 -> (sig "arc4 signature" "pyteal signature" ROUTABLE)
+     (sigstr "subname" "regname" (T ...) RET)    -> (sig "arc4 signature" "dispatched signature" "contract signature" ROUTABLE)
      (plan (T ...))                              -> (plan (tupled T ...) B ...)      binding_plan
      (client xSEL xSENDER APPID (T ...) (A ...)) -> (call (args x..) (accounts x..) (assets n..) (apps n..) (txns (TYPE xBODY)..)) | (none)
      (bind xSEL xSENDER APPID (T ...) (A ...) (G ...))
@@ -184,14 +184,15 @@ Definition do_glue (body : list sexp) : sexp :=
 
 Definition do_sigstr (body : list sexp) : sexp :=
   match body with
-  | [Str name; SList ts; ret] =>
+  | [Str subname; Str regname; SList ts; ret] =>
       match w_tys ts, w_ret ret with
       | Some tys, Some r =>
-          let s := mkSig name tys r in
-          SList [Atom "sig"; Str (arc4_sig_str s); Str (pyteal_sig_str s); p_bool (routable s)]
+          let reg := mkReg (mkSig subname tys r) (if String.eqb subname regname then None else Some regname) in
+          SList [Atom "sig"; Str (arc4_sig_str (registered_sig reg)); Str (dispatched_sig_str reg);
+                 Str (spec_sig_str (spec_of reg)); p_bool (routable (r_sig reg))]
       | _, _ => err "sigstr: bad type"
       end
-  | _ => err "sigstr: expected name, types, return"
+  | _ => err "sigstr: expected subroutine name, registered name, types, return"
   end.
 
 Definition do_member (body : list sexp) : sexp :=
